@@ -19,6 +19,21 @@ import collections
 from sim import core
 
 
+def crashes(mod, desc, opts):
+    """True when replaying desc kills a forked child with a signal."""
+    sys.stdout.flush()
+    pid = os.fork()
+    if pid == 0:
+        try:
+            devnull = os.open(os.devnull, os.O_WRONLY)
+            os.dup2(devnull, 2)
+            mod.replay(desc, opts)
+        finally:
+            os._exit(0)
+    _, status = os.waitpid(pid, 0)
+    return os.WIFSIGNALED(status)
+
+
 def shrink(mod, desc, cls, opts, budget_s=120, max_replays=400):
     """Greedy delta debugging on the recorded descriptor: accept any simpler
     candidate that still produces a violation of the same class."""
@@ -33,6 +48,12 @@ def shrink(mod, desc, cls, opts, budget_s=120, max_replays=400):
             if time.time() - t0 > budget_s or n >= max_replays:
                 break
             n += 1
+            if cls[1] == 'CRASH':
+                if crashes(mod, cand, opts):
+                    desc = cand
+                    improved = True
+                    break
+                continue
             try:
                 vs = mod.replay(cand, opts)
             except Exception:
@@ -57,8 +78,16 @@ def fresh_replay(prop, path):
 def do_replay(mod, path):
     core.init_torch()
     rp = core.read_replay(path)
-    vs = mod.replay(rp['desc'], {})
     cls = tuple(rp['class'])
+    if cls[1] == 'CRASH':
+        # the recorded violation is a crash of the interpreter: replay it in a forked child
+        if crashes(mod, rp['desc'], {}):
+            print('REPLAY: reproduced class=%s (child killed by a signal)' % (list(cls),))
+            print('VIOLATION property=%s replay=%s' % (mod.PROP, path))
+            return 1
+        print('REPLAY: violation not reproduced')
+        return 0
+    vs = mod.replay(rp['desc'], {})
     same = [v for v in vs if core.vclass(v) == cls]
     other = [v for v in vs if core.vclass(v) != cls and v['property'] == mod.PROP]
     for v in same:
